@@ -621,7 +621,11 @@ func c0203(prop string, args []string) int {
 			if err := json.Unmarshal(raw, &j); err != nil {
 				return ledRes{Err: err.Error()}
 			}
-			return ledExec(j)
+			r, ok := confirm(func() ledRes { return ledExec(j) }, func(r ledRes) bool { return len(r.Viol) > 0 })
+			if !ok {
+				return ledRes{Err: unstableMsg}
+			}
+			return r
 		})
 	}
 	f := explore.ParseFlags(prop, args, nil)
